@@ -93,7 +93,8 @@ package types
 //@   sets disp_act_ta = packet.TransferAttributes
 //@   sets-post disp_exit = packet.TransferAttributes.destinationCoin
 //@   sets-post disp_act_err = err
-//@   modifies bank, events, actcalls, act_ctrl, act_pkt, disp_act_log, disp_act_ta, disp_exit, disp_act_err, packet.TransferAttributes.destinationCoin
+//@   sets-post disp_act_fail = ite(err != nil, old(disp_act_fail) + 1, old(disp_act_fail))
+//@   modifies bank, events, actcalls, act_ctrl, act_pkt, disp_act_log, disp_act_ta, disp_exit, disp_act_err, disp_act_fail, packet.TransferAttributes.destinationCoin
 //@   ensures[C06] true
 //@   requires[C01] bankNonneg(bank)
 //@   ensures[C01] err == nil ==> bankNonneg(bank) && packet.TransferAttributes != nil
